@@ -991,11 +991,15 @@ class Interp:
                 o = st.heap[fv.id]
                 return lib.call_object(self, st, fv, o, pos, kws, node)
             if isinstance(fv, ModV):
+                if opaque_kwargs:
+                    self.assumed.add(f"A-kwargs: unknown **kwargs forwarded to {fv.name} are treated as absent (default behaviour of the library call)")
                 return lib.call_lib(self, st, fv.name, pos, kws, node)
             if isinstance(fv, NoneV):
                 return [(st, Exc("TypeError", "'NoneType' object is not callable", self.where(node)))]
             raise EngineError(f"call of non-callable {fv} at {self.where(node)}")
         k = fv.kind
+        if opaque_kwargs and k in ("lib", "libbound", "uninterp"):
+            self.assumed.add(f"A-kwargs: unknown **kwargs forwarded to {getattr(fv, 'name', '?')} are treated as absent (default behaviour of the library call)")
         if k == "lib":
             return lib.call_lib(self, st, fv.name, pos, kws, node)
         if k == "libbound":
